@@ -240,7 +240,7 @@ func cniRun(c map[string]interface{}) map[string]interface{} {
 	g.SetClient(fake.NewSimpleClientset(objs...))
 	go g.StartServer() // nolint: errcheck
 	up := false
-	for i := 0; i < 500; i++ {
+	for i := 0; i < 3000; i++ {
 		if conn, err := net.Dial("unix", private.GalaxySocketPath); err == nil {
 			conn.Close()
 			up = true
